@@ -6,7 +6,7 @@ import plistlib
 import random
 
 from vlib import gt
-from vlib.par import pmap
+from vlib.par import pmap, timeout_failure
 
 PROPERTY = 'C20'
 LEVEL = 'other'
@@ -167,7 +167,7 @@ def bounded(tier, seed, repo_root):
                 rejected += 1
                 jobs.append((fmt, c, 0))
                 jobs.append((fmt, c, 1))
-    res = pmap(_run, jobs, repo_root)
+    res = pmap(_run, jobs, repo_root, job_timeout=60, on_timeout=timeout_failure('C20'))
     fails = [f for fs in res for f in fs]
     return [{
         'name': 'C20.fault-enumeration', 'bound': f"{sum(len(v) for v in corp.values())} valid documents over json/json5/yaml/xml/html/"
